@@ -313,6 +313,8 @@ type Req struct {
 	Host   string              `json:"host,omitempty"`
 	Header map[string][]string `json:"header,omitempty"`
 	Body   string              `json:"body,omitempty"`
+	// UnknownLength sends the body with ContentLength -1 (a chunked upload, or a request built from a plain io.Reader)
+	UnknownLength bool `json:"unknown_length,omitempty"`
 
 	PanicAt    string `json:"panic_at,omitempty"`
 	PanicAfter bool   `json:"panic_after,omitempty"`
@@ -336,6 +338,9 @@ func (q Req) Build() (*http.Request, *Outcome, *Rec) {
 	if q.Body != "" {
 		r.Body = nopCloser{strings.NewReader(q.Body)}
 		r.ContentLength = int64(len(q.Body))
+		if q.UnknownLength {
+			r.ContentLength = -1
+		}
 	}
 	r = r.WithContext(context.WithValue(context.Background(), ctxKey{}, o))
 	rec := &Rec{o: o, hdr: http.Header{}}
